@@ -2,7 +2,7 @@
    oracles given as finite tables (values computed by the real Python/csv/yaml), and
    ASCII-only rendering of results (one line per case).  No proofs. *)
 From Coq Require Import String Ascii List ZArith Bool NArith DecimalString.
-From PV Require Import Model_scsv.
+From PV Require Import Model_scsv Model_scsv_frame.
 Import ListNotations.
 Open Scope string_scope.
 
@@ -128,5 +128,26 @@ Definition run_rt (t : tables) (s : schema) (y : yres) (data : list (list cell))
 Definition run_read (t : tables) (y : yres) : string :=
   let O := oracles_of t in
   "R:" ++ show_res show_table (bind (t_transport t) (read O y)).
+
+(* read_scsv on a file given by its lines (as iterating the text-mode file yields them).  The
+   loop that sorts the lines is the model's (`frame`); ytab / rtab list what PyYAML / csv.reader
+   return for the header lines / csv lines the harness expects -- a different split misses the
+   tables (F:0). *)
+Fixpoint look_lines {A} (l : list (list string * A)) (k : list string) : option A :=
+  match l with
+  | [] => None
+  | (k', v) :: r => if list_str_eqb k k' then Some v else look_lines r k
+  end.
+
+Definition run_file (t : tables) (lines : list string) (ytab : list (list string * yres))
+           (rtab : list (list string * res (list (list string)))) : string :=
+  let O := oracles_of t in
+  let yc := frame false lines in
+  let hit := match look_lines ytab (fst yc), look_lines rtab (snd yc) with Some _, Some _ => true | _, _ => false end in
+  "R:" ++ show_res show_table
+     (read_file O (fun yl => match look_lines ytab yl with Some y => y | None => YFail end)
+                  (fun cl => match look_lines rtab cl with Some r => r | None => Err EUnmodelled end) lines)
+  ++ "|F:" ++ show_bool hit
+  ++ "|N:" ++ zstr (Z.of_nat (length (fst yc))) ++ "," ++ zstr (Z.of_nat (length (snd yc))).
 
 Definition run_terse (x : string) : string := "T:" ++ show_res show_schema (parse_terse x).
